@@ -73,6 +73,22 @@ func TestDecodeValueNumber(t *testing.T) {
 		{"1.5e3 ", 5, types.V_DOUBLE, 0, 1500},
 		{"1e-400", 6, types.V_DOUBLE, 0, 0},
 		{"1e400", -int(types.ERR_FLOAT_INFINITY), -types.ValueType(types.ERR_FLOAT_INFINITY), 0, 0},
+		// only the longest valid prefix is a number
+		{"01", 1, types.V_INTEGER, 0, 0},
+		{"-01", 2, types.V_INTEGER, 0, 0},
+		{"0.5x", 3, types.V_DOUBLE, 0, 0.5},
+		{"1.2.3", 3, types.V_DOUBLE, 0, 1.2},
+		{"1e2e3", 3, types.V_DOUBLE, 0, 100},
+		{"1-2", 1, types.V_INTEGER, 1, 0},
+		{"1.", -int(types.ERR_EOF), -types.ValueType(types.ERR_EOF), 0, 0},
+		{"1.}", -int(types.ERR_INVALID_CHAR), -types.ValueType(types.ERR_INVALID_CHAR), 0, 0},
+		{"-.5", -int(types.ERR_INVALID_CHAR), -types.ValueType(types.ERR_INVALID_CHAR), 0, 0},
+		{".5", -int(types.ERR_INVALID_CHAR), -types.ValueType(types.ERR_INVALID_CHAR), 0, 0},
+		{"+1", -int(types.ERR_INVALID_CHAR), -types.ValueType(types.ERR_INVALID_CHAR), 0, 0},
+		{"-", -int(types.ERR_EOF), -types.ValueType(types.ERR_EOF), 0, 0},
+		{"--1", -int(types.ERR_INVALID_CHAR), -types.ValueType(types.ERR_INVALID_CHAR), 0, 0},
+		{"1e", -int(types.ERR_EOF), -types.ValueType(types.ERR_EOF), 0, 0},
+		{"1e+]", -int(types.ERR_INVALID_CHAR), -types.ValueType(types.ERR_INVALID_CHAR), 0, 0},
 	}
 	for _, c := range cases {
 		ret, v := DecodeValue(c.in, 0)
@@ -81,6 +97,22 @@ func TestDecodeValueNumber(t *testing.T) {
 		}
 		if ret >= 0 && (v.Iv != c.iv || v.Dv != c.dv) {
 			t.Fatalf("%q: got %d %v, expected %d %v", c.in, v.Iv, v.Dv, c.iv, c.dv)
+		}
+	}
+}
+
+func TestSkipValueNumber(t *testing.T) {
+	for in, exp := range map[string]int{
+		"0":         1,
+		"-12.5e+3,": 8,
+		"01":        1,
+		"1e":        -int(types.ERR_EOF),
+		"1.]":       -int(types.ERR_INVALID_CHAR),
+		"-]":        -int(types.ERR_INVALID_CHAR),
+		"+1":        -int(types.ERR_INVALID_CHAR),
+	} {
+		if ret, _ := SkipValue(in, 0); ret != exp {
+			t.Fatalf("%q: ret %d, expected %d", in, ret, exp)
 		}
 	}
 }
